@@ -1,1 +1,523 @@
-//! (module to be written)
+//! TeX's line scanner, tex.web §343-356 (get_next for the "file" states), with source positions.
+//!
+//! The model is a transliteration of Knuth's code on a line buffer of `(character, column)` pairs:
+//!
+//! * §31/§37 `input_ln`: a source is a sequence of lines (split at `\n`; no final empty line when the
+//!   text ends in `\n`; the empty text has no line – the crate's documented convention, TeX itself
+//!   leaves line splitting to the operating system); trailing U+0020 characters are removed.
+//! * §360/§362 `limit←last; if end_line_char_inactive then decr(limit) else buffer[limit]←end_line_char`:
+//!   the end-line character in force *when the line is loaded* is appended.
+//! * §343/§344/§347 the state machine new_line (N) / mid_line (M) / skip_blanks (S).
+//! * §352 `^^` reduction at top level, §354-356 control sequence names with `^^` reduction inside
+//!   names; both with the two-hex-digit form behind the switch `hex` (TeX: on).
+//! * §345/§346 invalid characters are reported and scanning goes on (`goto restart`).
+//!
+//! Position convention (DESIGN §3 C03): TeX has no per-token positions. A token is positioned at the
+//! buffer slot it was read from: an ordinary character at its own column, a control sequence at its
+//! escape character, a character produced by `^^x` / `^^xy` at the column of the *last* character of
+//! the sequence (the slot rewritten in place – the convention pinned by the crate's own tests,
+//! `"^^k"` -> `('+', Other, 2)`), tokens made from the end-line character at column = length of the
+//! trimmed line.
+//!
+//! Category codes are TeX's numbers 0..=15.
+
+pub const ESCAPE: u8 = 0;
+pub const LEFT_BRACE: u8 = 1;
+pub const RIGHT_BRACE: u8 = 2;
+pub const MATH_SHIFT: u8 = 3;
+pub const TAB_MARK: u8 = 4;
+pub const CAR_RET: u8 = 5;
+pub const MAC_PARAM: u8 = 6;
+pub const SUP_MARK: u8 = 7;
+pub const SUB_MARK: u8 = 8;
+pub const IGNORE: u8 = 9;
+pub const SPACER: u8 = 10;
+pub const LETTER: u8 = 11;
+pub const OTHER_CHAR: u8 = 12;
+pub const ACTIVE_CHAR: u8 = 13;
+pub const COMMENT: u8 = 14;
+pub const INVALID_CHAR: u8 = 15;
+
+/// A category code table: 128 low entries plus a short list of overrides (any character).
+/// Characters >= 128 without an override are `other_char`.
+#[derive(Clone, Debug)]
+pub struct Table {
+    pub low: [u8; 128],
+    pub over: Vec<(char, u8)>,
+}
+
+impl Table {
+    /// INITEX (§232) plus the assignments of plain.tex (The TeXbook p. 343):
+    /// `\catcode`\{=1 \}=2 \$=3 \&=4 \#=6 \^=7 \^^K=7 \_=8 \^^A=8 \^^I=10 \~=13 \^^L=13`.
+    pub fn plain() -> Table {
+        let mut low = [OTHER_CHAR; 128];
+        for c in b'a'..=b'z' {
+            low[c as usize] = LETTER;
+        }
+        for c in b'A'..=b'Z' {
+            low[c as usize] = LETTER;
+        }
+        low[0] = IGNORE;
+        low[13] = CAR_RET;
+        low[b' ' as usize] = SPACER;
+        low[b'\\' as usize] = ESCAPE;
+        low[b'%' as usize] = COMMENT;
+        low[127] = INVALID_CHAR;
+        low[b'{' as usize] = LEFT_BRACE;
+        low[b'}' as usize] = RIGHT_BRACE;
+        low[b'$' as usize] = MATH_SHIFT;
+        low[b'&' as usize] = TAB_MARK;
+        low[b'#' as usize] = MAC_PARAM;
+        low[b'^' as usize] = SUP_MARK;
+        low[11] = SUP_MARK;
+        low[b'_' as usize] = SUB_MARK;
+        low[1] = SUB_MARK;
+        low[9] = SPACER;
+        low[b'~' as usize] = ACTIVE_CHAR;
+        low[12] = ACTIVE_CHAR;
+        Table { low, over: vec![] }
+    }
+    pub fn from_low(low: [u8; 128]) -> Table {
+        Table { low, over: vec![] }
+    }
+    pub fn with(mut self, c: char, cat: u8) -> Table {
+        self.over.retain(|(x, _)| *x != c);
+        self.over.push((c, cat));
+        self
+    }
+    #[inline]
+    pub fn cat(&self, c: char) -> u8 {
+        for (x, k) in &self.over {
+            if *x == c {
+                return *k;
+            }
+        }
+        if (c as u32) < 128 {
+            self.low[c as usize]
+        } else {
+            OTHER_CHAR
+        }
+    }
+}
+
+/// What the scanner is parameterised by at every call (both can change between two tokens).
+#[derive(Clone, Debug)]
+pub struct Config {
+    pub table: Table,
+    /// `\endlinechar` (None = inactive, §360 `end_line_char_inactive`).
+    pub end_line_char: Option<char>,
+    /// §352/§355 two-hex-digit form `^^xy` (TeX: true; the adjusted expectation of D4: false).
+    pub hex: bool,
+}
+
+#[derive(Clone, Debug, PartialEq, Eq, Hash)]
+pub enum TokV {
+    /// control sequence with its name (the empty name is §354 `null_cs`)
+    Cs(String),
+    /// character token with its category code (space tokens are `(' ', 10)`, §347)
+    Ch(char, u8),
+}
+
+#[derive(Clone, Debug, PartialEq, Eq)]
+pub struct Tok {
+    pub v: TokV,
+    /// 1-based line number inside the source
+    pub line: usize,
+    /// 0-based column (in characters) inside that line of the source
+    pub col: usize,
+}
+
+impl TokV {
+    /// `\name`, or `c/cat` for character tokens.
+    pub fn exact(&self) -> String {
+        match self {
+            TokV::Cs(n) => format!("\\{n}"),
+            TokV::Ch(c, k) => format!("{c}/{k}"),
+        }
+    }
+    /// The text a trace shows for the token: `\name` or the character.
+    pub fn text(&self) -> String {
+        match self {
+            TokV::Cs(n) => format!("\\{n}"),
+            TokV::Ch(c, _) => c.to_string(),
+        }
+    }
+}
+
+#[derive(Clone, Debug, PartialEq, Eq)]
+pub enum Item {
+    Tok(Tok),
+    /// §346: an invalid character was met (and skipped)
+    Invalid { c: char, line: usize, col: usize },
+    /// a further line was started (reported by `Source::next` between two lines)
+    NewLine,
+    End,
+}
+
+#[derive(Clone, Copy, Debug, PartialEq, Eq)]
+pub enum State {
+    NewLine,
+    MidLine,
+    SkipBlanks,
+}
+
+/// Things that happened while scanning, for the vacuity counters of the checks (facts about the
+/// case as seen by the model, never about the implementation's answer).
+#[derive(Clone, Copy, Debug, Default, PartialEq, Eq)]
+pub struct Events {
+    /// a two-hex-digit form was *available* (doubled catcode-7 character followed by two of 0-9a-f);
+    /// recorded with `hex` on and off: this is the `applies` predicate of finding D4
+    pub hex_form_seen: bool,
+    /// a `^^` sequence whose last character is the last character of the line buffer
+    pub caret_at_line_end: bool,
+    /// reduction inside a control sequence name (§355)
+    pub caret_in_name: bool,
+    /// the first character of a reduced sequence was itself the product of a reduction
+    pub caret_recursive: bool,
+    pub trailing_blanks_trimmed: bool,
+    /// the state changed at least once inside a line
+    pub state_changes: u32,
+    pub reductions: u32,
+    /// `^^` followed by a character >= 128 was met (no reduction, §352 `if c<128`)
+    pub caret_before_non_ascii: bool,
+}
+
+#[inline]
+fn is_hex(c: char) -> bool {
+    matches!(c, '0'..='9' | 'a'..='f')
+}
+#[inline]
+fn hexv(c: char) -> u32 {
+    c.to_digit(16).unwrap()
+}
+/// §352 `if c<64 then cur_chr←c+64 else cur_chr←c-64` (c < 128)
+#[inline]
+fn flip64(c: char) -> char {
+    let u = c as u32;
+    char::from_u32(if u < 64 { u + 64 } else { u - 64 }).unwrap()
+}
+
+/// Split a text into its lines (raw, untrimmed).
+pub fn split_lines(text: &str) -> Vec<String> {
+    if text.is_empty() {
+        return vec![];
+    }
+    let mut v: Vec<String> = text.split('\n').map(|s| s.to_string()).collect();
+    if text.ends_with('\n') {
+        v.pop();
+    }
+    v
+}
+
+/// One source of lines (a file, a terminal line, the text given to a lexer).
+#[derive(Clone, Debug)]
+pub struct Source {
+    /// the lines as they stand in the source (untrimmed)
+    pub lines: Vec<String>,
+    /// index of the next line to load (= number of lines loaded so far)
+    pub next_line: usize,
+    /// the line buffer: character, column in the source line, "is the product of a reduction"
+    buf: Vec<(char, usize, bool)>,
+    loc: usize,
+    pub state: State,
+    pub ev: Events,
+}
+
+impl Source {
+    pub fn new(text: &str) -> Source {
+        Source { lines: split_lines(text), next_line: 0, buf: vec![], loc: 0, state: State::NewLine, ev: Events::default() }
+    }
+    /// Raw text of line `n` (1-based).
+    pub fn line_text(&self, n: usize) -> &str {
+        &self.lines[n - 1]
+    }
+    /// Number of the line in the buffer (1-based; 0 before the first line was loaded).
+    pub fn current_line(&self) -> usize {
+        self.next_line
+    }
+    pub fn has_more_lines(&self) -> bool {
+        self.next_line < self.lines.len()
+    }
+    /// `loc > limit`: nothing is left in the current line.
+    pub fn line_exhausted(&self) -> bool {
+        self.loc >= self.buf.len()
+    }
+    /// Load the next line (§362 / §538): right-trim spaces, append the end-line character, state N.
+    /// Returns false (and leaves an empty buffer) when there is no further line.
+    pub fn start_next_line(&mut self, end_line_char: Option<char>) -> bool {
+        self.buf.clear();
+        self.loc = 0;
+        self.state = State::NewLine;
+        if self.next_line >= self.lines.len() {
+            return false;
+        }
+        let raw = &self.lines[self.next_line];
+        self.next_line += 1;
+        let trimmed = raw.trim_end_matches(' ');
+        if trimmed.len() != raw.len() {
+            self.ev.trailing_blanks_trimmed = true;
+        }
+        let mut n = 0;
+        for c in trimmed.chars() {
+            self.buf.push((c, n, false));
+            n += 1;
+        }
+        if let Some(e) = end_line_char {
+            self.buf.push((e, n, false));
+        }
+        true
+    }
+    /// Forget the rest of the current line (`loc←limit+1`).
+    pub fn drop_rest_of_line(&mut self) {
+        self.loc = self.buf.len();
+    }
+    /// Forget all further lines.
+    pub fn drop_further_lines(&mut self) {
+        self.next_line = self.lines.len();
+    }
+    /// Remaining characters of the current line (after reductions done so far).
+    pub fn rest_of_line(&self) -> String {
+        self.buf[self.loc.min(self.buf.len())..].iter().map(|x| x.0).collect()
+    }
+
+    fn set_state(&mut self, s: State) {
+        if s != self.state {
+            self.ev.state_changes += 1;
+            self.state = s;
+        }
+    }
+
+    /// §355 "If an expanded code is present, reduce it and goto start_cs". `k` is the index after
+    /// `cur_chr` (so `buf[k-1]` is `cur_chr`). Returns true if a reduction was made.
+    fn reduce_in_name(&mut self, k: usize, cur_chr: char, cat: u8, hex: bool) -> bool {
+        // if (cat=sup_mark) and (buffer[k]=cur_chr) and (k<limit)   -- limit = buf.len()-1
+        if cat == SUP_MARK && k + 1 < self.buf.len() && self.buf[k].0 == cur_chr {
+            let c = self.buf[k + 1].0;
+            if (c as u32) < 128 {
+                let mut d = 2;
+                let mut new = flip64(c);
+                // if is_hex(c) then if k+2<=limit then begin cc←buffer[k+2]; if is_hex(cc) then incr(d)
+                if is_hex(c) && k + 2 < self.buf.len() && is_hex(self.buf[k + 2].0) {
+                    self.ev.hex_form_seen = true;
+                    if hex {
+                        d = 3;
+                        new = char::from_u32(16 * hexv(c) + hexv(self.buf[k + 2].0)).unwrap();
+                    }
+                }
+                if k - 1 + d == self.buf.len() - 1 {
+                    self.ev.caret_at_line_end = true;
+                }
+                if self.buf[k - 1].2 {
+                    self.ev.caret_recursive = true;
+                }
+                self.ev.caret_in_name = true;
+                self.ev.reductions += 1;
+                // buffer[k-1]←cur_chr; limit←limit-d; shift the rest left by d.
+                // Position convention: the slot of the last character of the sequence.
+                let col = self.buf[k - 1 + d].1;
+                self.buf[k - 1] = (new, col, true);
+                self.buf.drain(k..k + d);
+                return true;
+            } else {
+                self.ev.caret_before_non_ascii = true;
+            }
+        }
+        false
+    }
+
+    /// The next item of the *current line* (None when `loc>limit`): §343 `switch` .. §357.
+    pub fn next_in_line(&mut self, cfg: &Config) -> Option<Item> {
+        let line = self.next_line;
+        'switch: loop {
+            if self.loc >= self.buf.len() {
+                return None;
+            }
+            let (mut cur_chr, mut col, mut produced) = self.buf[self.loc];
+            self.loc += 1;
+            'reswitch: loop {
+                let cat = cfg.table.cat(cur_chr);
+                match cat {
+                    // any_state_plus(ignore), skip_blanks+spacer, new_line+spacer: goto switch
+                    IGNORE => continue 'switch,
+                    SPACER => {
+                        if self.state == State::MidLine {
+                            // §347 mid_line+spacer: state←skip_blanks; cur_chr←" "
+                            self.set_state(State::SkipBlanks);
+                            return Some(Item::Tok(Tok { v: TokV::Ch(' ', SPACER), line, col }));
+                        }
+                        continue 'switch;
+                    }
+                    ESCAPE => {
+                        // §354
+                        if self.loc >= self.buf.len() {
+                            // cur_cs←null_cs {state is irrelevant in this case}
+                            return Some(Item::Tok(Tok { v: TokV::Cs(String::new()), line, col }));
+                        }
+                        'start_cs: loop {
+                            let mut k = self.loc;
+                            let mut c = self.buf[k].0;
+                            let mut cat = cfg.table.cat(c);
+                            k += 1;
+                            if cat == LETTER || cat == SPACER {
+                                self.set_state(State::SkipBlanks);
+                            } else {
+                                self.set_state(State::MidLine);
+                            }
+                            if cat == LETTER && k < self.buf.len() {
+                                // §356 scan ahead for a multiletter control sequence
+                                loop {
+                                    c = self.buf[k].0;
+                                    cat = cfg.table.cat(c);
+                                    k += 1;
+                                    if cat != LETTER || k >= self.buf.len() {
+                                        break;
+                                    }
+                                }
+                                if self.reduce_in_name(k, c, cat, cfg.hex) {
+                                    continue 'start_cs;
+                                }
+                                if cat != LETTER {
+                                    k -= 1;
+                                }
+                                if k > self.loc + 1 {
+                                    let name: String = self.buf[self.loc..k].iter().map(|x| x.0).collect();
+                                    self.loc = k;
+                                    return Some(Item::Tok(Tok { v: TokV::Cs(name), line, col }));
+                                }
+                            } else if self.reduce_in_name(k, c, cat, cfg.hex) {
+                                continue 'start_cs;
+                            }
+                            // cur_cs←single_base+buffer[loc]; incr(loc)
+                            let name = self.buf[self.loc].0.to_string();
+                            self.loc += 1;
+                            return Some(Item::Tok(Tok { v: TokV::Cs(name), line, col }));
+                        }
+                    }
+                    SUP_MARK => {
+                        // §352: if cur_chr=buffer[loc] then if loc<limit then ...
+                        if self.loc + 1 < self.buf.len() && self.buf[self.loc].0 == cur_chr {
+                            let c = self.buf[self.loc + 1].0;
+                            if (c as u32) < 128 {
+                                if produced {
+                                    self.ev.caret_recursive = true;
+                                }
+                                self.ev.reductions += 1;
+                                self.loc += 2;
+                                // if is_hex(c) then if loc<=limit then begin cc←buffer[loc]; if is_hex(cc) ...
+                                if is_hex(c) && self.loc < self.buf.len() && is_hex(self.buf[self.loc].0) {
+                                    self.ev.hex_form_seen = true;
+                                    if cfg.hex {
+                                        let cc = self.buf[self.loc].0;
+                                        col = self.buf[self.loc].1;
+                                        self.loc += 1;
+                                        if self.loc == self.buf.len() {
+                                            self.ev.caret_at_line_end = true;
+                                        }
+                                        cur_chr = char::from_u32(16 * hexv(c) + hexv(cc)).unwrap();
+                                        produced = true;
+                                        continue 'reswitch;
+                                    }
+                                }
+                                col = self.buf[self.loc - 1].1;
+                                if self.loc == self.buf.len() {
+                                    self.ev.caret_at_line_end = true;
+                                }
+                                cur_chr = flip64(c);
+                                produced = true;
+                                continue 'reswitch;
+                            } else {
+                                self.ev.caret_before_non_ascii = true;
+                            }
+                        }
+                        self.set_state(State::MidLine);
+                        return Some(Item::Tok(Tok { v: TokV::Ch(cur_chr, SUP_MARK), line, col }));
+                    }
+                    INVALID_CHAR => {
+                        // §346 decry the invalid character and goto restart (state unchanged)
+                        return Some(Item::Invalid { c: cur_chr, line, col });
+                    }
+                    CAR_RET => {
+                        // §347/§348/§350/§351: finish the line
+                        self.loc = self.buf.len();
+                        match self.state {
+                            State::MidLine => return Some(Item::Tok(Tok { v: TokV::Ch(' ', SPACER), line, col })),
+                            State::SkipBlanks => continue 'switch,
+                            State::NewLine => return Some(Item::Tok(Tok { v: TokV::Cs("par".into()), line, col })),
+                        }
+                    }
+                    COMMENT => {
+                        // §350 any_state_plus(comment): loc←limit+1; goto switch
+                        self.loc = self.buf.len();
+                        continue 'switch;
+                    }
+                    _ => {
+                        // left_brace, right_brace, math_shift, tab_mark, mac_param, sub_mark, letter,
+                        // other_char, active_char: the token itself; state←mid_line
+                        self.set_state(State::MidLine);
+                        return Some(Item::Tok(Tok { v: TokV::Ch(cur_chr, cat), line, col }));
+                    }
+                }
+            }
+        }
+    }
+
+    /// The scanner as one stream: tokens, `NewLine` between two lines, `End`.
+    /// (§360: when the line is exhausted the next one is loaded with the end-line character of the
+    /// moment.)
+    pub fn next(&mut self, cfg: &Config) -> Item {
+        if let Some(i) = self.next_in_line(cfg) {
+            return i;
+        }
+        let first = self.next_line == 0;
+        if !self.start_next_line(cfg.end_line_char) {
+            return Item::End;
+        }
+        if first {
+            self.next(cfg)
+        } else {
+            Item::NewLine
+        }
+    }
+}
+
+/// All items of a text under a fixed configuration (no `End`).
+pub fn scan_all(text: &str, cfg: &Config) -> (Vec<Item>, Events) {
+    let mut s = Source::new(text);
+    let mut out = vec![];
+    loop {
+        match s.next(cfg) {
+            Item::End => break,
+            i => out.push(i),
+        }
+    }
+    (out, s.ev)
+}
+
+#[cfg(test)]
+mod tests {
+    use super::*;
+    fn toks(text: &str, cfg: &Config) -> String {
+        scan_all(text, cfg)
+            .0
+            .iter()
+            .map(|i| match i {
+                Item::Tok(t) => format!("{}@{}:{}", t.v.exact(), t.line, t.col),
+                Item::Invalid { c, .. } => format!("!{c}"),
+                Item::NewLine => "NL".into(),
+                Item::End => unreachable!(),
+            })
+            .collect::<Vec<_>>()
+            .join(" ")
+    }
+    #[test]
+    fn basics() {
+        let cfg = Config { table: Table::plain(), end_line_char: Some('\r'), hex: true };
+        assert_eq!(toks("\\a b", &cfg), "\\a@1:0 b/11@1:3  /10@1:4");
+        assert_eq!(toks("^^k", &cfg), "+/12@1:2  /10@1:3");
+        assert_eq!(toks("^^5e", &cfg), "^/7@1:3  /10@1:4");
+        assert_eq!(toks("\\^^-^^-+", &cfg), "\\mm@1:0 +/12@1:7  /10@1:8");
+        assert_eq!(toks("A\n\nB", &cfg), "A/11@1:0  /10@1:1 NL \\par@2:0 NL B/11@3:0  /10@3:1");
+        let cfg = Config { table: Table::plain(), end_line_char: Some('\r'), hex: false };
+        assert_eq!(toks("^^5e", &cfg), "u/11@1:2 e/11@1:3  /10@1:4");
+    }
+}
